@@ -88,7 +88,9 @@ def make_cases(tier, seed):
     for fam in ("lsn", "cdn", "lsn_tilt", "cosmode"):
         for (nR, nZ) in [(33, 33), (20, 31), (41, 25)] if tier == "quick" else [(33, 33), (20, 31), (41, 25), (65, 65), (17, 65), (80, 30)]:
             add({"kind": "agree", "family": fam, "nR": nR, "nZ": nZ})
-    pairs = [("scalar", "scalar"), ("array", "array"), ("array2d", "array2d"), ("mla", "mla"), ("mla", "scalar"), ("scalar", "mla"), ("mla", "array"), ("array2d", "mla")]
+    pairs = [("scalar", "scalar"), ("array", "array"), ("array2d", "array2d"), ("mla", "mla"), ("mla", "scalar"), ("scalar", "mla"), ("mla", "array"), ("array2d", "mla"),
+             # MultiLocationArrays that have only some of their locations (seeded change C18_mla_corners_guarded_by_ylow)
+             ("mla:centre+corners", "mla:centre+corners"), ("mla:corners", "mla:corners"), ("mla:xlow", "mla:xlow"), ("mla:ylow+centre", "mla:ylow+centre")]
     for m in ("spline", "dct"):
         for fn in FUNCS:
             for a1, a2 in pairs:
@@ -97,7 +99,7 @@ def make_cases(tier, seed):
     for m in ("spline", "dct"):
         for sign in (1.0, -1.0):
             for fn in FUNCS:
-                for a in ("scalar", "array", "array2d", "mla"):
+                for a in ("scalar", "array", "array2d", "mla", "mla:centre+corners", "mla:xlow"):
                     add({"kind": "shape", "method": m, "fn": fn, "a1": a, "a2": a, "nR": 65, "nZ": 65, "eq": "tokamak", "psi_sign": sign})
     return cases
 
@@ -180,7 +182,7 @@ def run(tier, seed):
         if r["kind"] == "agree":
             r.update({k: c[k] for k in c if k.startswith("cap_")})
         if r["kind"] == "shape":
-            r["a1"], r["a2"] = c["a1"].replace("array2d", "array"), c["a2"].replace("array2d", "array")
+            r["a1"], r["a2"] = c["a1"].replace("array2d", "array").split(":")[0], c["a2"].replace("array2d", "array").split(":")[0]
     failed, results = judge(good, d, "fl")
     for res in results:
         v.add_tlc(res)
@@ -201,7 +203,7 @@ def run(tier, seed):
             v.violation(key, msg, {"case": c, "record": r, "clause": cl, "loc": loc})
     v.note("cases", {"generated": len(cases), "judged": counts, "tokamak_refused_by_code": len(refused),
                      "refusals": sorted({r["driver_error"][:80] for r in refused})[:5]})
-    if counts.get("exact", 0) < 300 or counts.get("fd", 0) < 40 or counts.get("nodes", 0) < 30 or counts.get("shape", 0) < 300 or counts.get("agree", 0) < 10:
+    if counts.get("exact", 0) < 300 or counts.get("fd", 0) < 40 or counts.get("nodes", 0) < 30 or counts.get("shape", 0) < 600 or counts.get("agree", 0) < 10:
         v.fail_machinery("coverage floor not reached: %s" % counts)
     tok = [r for r in good if byid[r["id"]].get("eq") == "tokamak"]
     if len(tok) < 20:
